@@ -295,6 +295,7 @@ pub fn run_incarnation(plan: &Plan, base: &State, rng: &mut Rng) -> Obs {
         store.0.lock().read_fails_at = plan2.store_read_fails_at;
         store.0.lock().no_ids = plan2.store_mode == StoreMode::IdUnavailable;
         store.0.lock().id_fails_for = plan2.id_fails_for.clone();
+        store.0.lock().id_fails_nth = plan2.id_fails_nth.clone();
         let lane_recs: Vec<SharedLane> = (0..n_lanes).map(|_| Arc::new(Mutex::new(LaneRec::default()))).collect();
         let store_recs: Vec<SharedLane> = (0..plan2.stores.len()).map(|_| Arc::new(Mutex::new(LaneRec::default()))).collect();
         let shared = Arc::new(AgentShared { lanes: lane_recs.clone(), stores: store_recs.clone(), returned: Mutex::new(None), init_error: Mutex::new(None) });
